@@ -117,9 +117,16 @@ fixed("C02", "D16a", "^fix: rebased commits no longer get notes", "after a plain
 fixed("C02", "D11", "^fix: reset --soft/--mixed keeps pending", "pending AI lines in f.txt were dropped by `git reset --soft|--mixed HEAD~1` when the un-done commit only touched g.txt (reconstruct_working_log_after_reset rebuilt only files changed in the un-done range and deleted the old working log)", "c02.reset_of_unrelated_commit_keeps_pending")
 fixed("C02", "D25", "^fix: bare 'git stash' takes", "bare `git stash` (implicit push) skipped the pre-stash human checkpoint that `git stash push` runs, so a person's unreported insertion above pending AI lines left stale line numbers in the stash note and an AI line came back human after pop", "c02.bare_stash_after_unreported_human_edit")
 
+open_("C11", "D8", "C11/not-serializable@overlapping-journal-windows", [],
+      "schedule: two `git-ai checkpoint` processes (agents S1 on a.txt, S2 on b.txt) both pass their read of .git/ai/working_logs/<HEAD>/checkpoints.jsonl before either writes it back (append_checkpoint and post-commit read-modify-write the journal with no lock) => the later write drops the other record and that agent's line is committed as human; identified by call site: any non-serializable outcome whose schedule has two journal read..exit windows overlapping is counted as this finding",
+      "c11.two_checkpoints_both_read_before_either_writes", [])
+open_("C11", "D45", "C11/not-serializable@stale-base-append", [],
+      "schedule: `git-ai checkpoint` for b.txt starts (resolves HEAD) while `git commit` of a.txt is still running and performs its journal append only after the commit process exits => the record lands in working_logs/<old HEAD>, which nothing reads again; S2's line is committed as human; identified by call site: non-serializable outcome, no overlapping windows, and the trace shows a checkpoints_write into the working log of a commit that is not HEAD",
+      "c11.checkpoint_started_before_commit_lands_after", [])
+
 json.dump(dict(comment="Genuine defects of git-ai recorded rather than repaired (status open) or repaired by a `fix:` commit in /repo (status fixed; "
                "a fixed entry suppresses nothing: its witness must pass). Open entries are matched only against their own pinned witness history "
-               "(vf/witness/*), never against anything found at random; their trigger_off flags remove the failing shape from random exploration "
+               "(vf/witness/*), never against anything found at random (exception, stated in the entries: the two C11 scheduling findings are identified by call site); their trigger_off flags remove the failing shape from random exploration "
                "of the listed properties. This file is never written at run time (source: tools/known_src.py).",
                findings=F), open(os.path.join(HERE, "known_findings.json"), "w"), indent=1)
 print(len(F), "entries")
